@@ -110,9 +110,6 @@ toCheckLoop:
 	for {
 		currDawg := currDawgs[len(currDawgs)-1]
 		for j := currDecisions[len(currDecisions)-1] + 1; j < len(currDawg.linkLabels); j++ {
-			currDawgs = append(currDawgs, currDawg.links[j])
-			currDecisions[len(currDecisions)-1] = j
-			currDecisions = append(currDecisions, -1)
 			linkID := currDawg.links[j].id
 			index := sort.Search(len(nodes), func(i int) bool { return nodes[i] >= linkID })
 			if index < len(nodes) && nodes[index] == linkID {
@@ -123,6 +120,10 @@ toCheckLoop:
 				copy(nodes[index+1:], nodes[index:])
 				nodes[index] = linkID
 				numEdges += len(currDawg.links[j].links)
+				//Only a node which is seen for the first time is entered.
+				currDawgs = append(currDawgs, currDawg.links[j])
+				currDecisions[len(currDecisions)-1] = j
+				currDecisions = append(currDecisions, -1)
 			}
 			continue toCheckLoop
 		}
@@ -303,9 +304,6 @@ toCheckLoop:
 		currDawg := currDawgs[len(currDawgs)-1]
 
 		for j := currDecisions[len(currDecisions)-1] + 1; j < len(currDawg.linkLabels); j++ {
-			currDawgs = append(currDawgs, currDawg.links[j])
-			currDecisions[len(currDecisions)-1] = j
-			currDecisions = append(currDecisions, -1)
 			linkDawg := currDawg.links[j]
 			linkID := linkDawg.id
 			index := sort.Search(len(nodes), func(i int) bool { return nodes[i] >= linkID })
@@ -337,6 +335,10 @@ toCheckLoop:
 					buf = encodeUint64(convertID(linkDawg.links[i].id), buf)
 					b = append(b, buf...)
 				}
+				//Only a node which is seen for the first time is entered.
+				currDawgs = append(currDawgs, linkDawg)
+				currDecisions[len(currDecisions)-1] = j
+				currDecisions = append(currDecisions, -1)
 			}
 			continue toCheckLoop
 		}
